@@ -44,6 +44,16 @@ CHECKS = [
              "and settings classes are opaque; end-to-end behaviour of fit on data is not decided here",
      "not_covered": ["that fit returns normally on every well-formed dataset (bounded part of C01/C10 exercises real fits)"],
      },
+    {"id": "C01", "level": "proof", "modules": ["contracts.C01_roundtrip"], "bounded": ["bounded.C01_roundtrip"],
+     "technique": "deductive verification of the prediction formula and coefficient packing (pyvc, z3) + bounded real round trips",
+     "text": "Proof: for every admissible stored coefficient vector of all seven shapes and every real temperature the real "
+             "_predict_submodel equals the documented piecewise formula evaluated from the JSON parameters alone; to_np_array and "
+             "from_np_arrays are inverse. Bounded (labelled so): real to_json/from_json round trips of fitted daily, billing, hourly and "
+             "CalTRACK-hourly models and of parameter-built models of all shapes, compared bit-for-bit.",
+     "note": "pydantic / json / pandas serialisation internals are outside the verifier's reach (assumed contracts, exercised by the bounded part); "
+             "known findings C11-edge / C11-edge-drop apply to the formula",
+     "not_covered": ["round trip of models from arbitrary fits (bounded sample only)"],
+     },
 ]
 _NOT_BUILT = "machinery for this property is not built yet (see DESIGN.md §7 build order); not claimed"
 NOT_APPLICABLE = [{"property_id": f"C{n:02d}", "reason": _NOT_BUILT} for n in range(1, 21) if n != 15 and f"C{n:02d}" not in {c["id"] for c in CHECKS}] + [
